@@ -127,6 +127,11 @@ class Gen:
                 else:
                     r["checkoutDeterministic"] = True
                     r["checkoutScript"] = 'echo "checkout %s" > co.txt\n' % nm
+                    if envn:
+                        # the checkout consumes a variable: its value is part of the checkout's Variant-Id only
+                        # (no rng call: the random streams of all users of this generator stay as they were)
+                        r["checkoutVars"] = [envn[0]]
+                        r["checkoutScript"] += 'echo "%s=${%s-<unset>}" >> co.txt\n' % (envn[0], envn[0])
                 if "buildScript" in r:
                     r["buildScript"] = 'cp -a "$1"/. . 2>/dev/null || true\n' + r["buildScript"]
             # provided things
